@@ -23,6 +23,7 @@ type WriterSpec struct {
 	Large bool   `json:"-"` // drawn from the large class (informative, not part of the case)
 	Many  bool   `json:"-"` // drawn from the many-row-groups class
 	Huge  bool   `json:"-"` // drawn from the huge-value class
+	Edge  bool   `json:"-"` // a quarter of its scalars are edge values
 }
 
 // TaskSpec is one instance of a C13 run.
